@@ -982,6 +982,8 @@ class Server(gpp.NodeParameter, metaclass=MetaServer):
         '''
 
         if _libsc3.main is _libsc3.NrtMain:
+            if elements:  # There is nothing to wait for, they are sent.
+                self.addr.send_bundle(latency, *elements)
             yield 0
         else:
             yield from self.addr.sync(condition, latency, elements)
